@@ -259,6 +259,33 @@ inductive QOut where
   | ref (q : QuestionRef)
 deriving Repr, DecidableEq, Inhabited
 
+/-- `$self.cursor.read()` of the `question!` macro: an owned `Question` or a `QuestionRef` -/
+def Reader.readQ (msg : Bytes) (owned : Bool) (r : Reader) : Res QOut × Reader :=
+  if owned then
+    match r.onCur (readQuestion msg) with
+    | (.ok q, r1) => (.ok (.owned q), r1)
+    | (.err e, r1) => (.err e, r1)
+    | (.panic p, r1) => (.panic p, r1)
+    | (.ub, r1) => (.ub, r1)
+  else
+    match r.onCur (readQuestionRef msg) with
+    | (.ok q, r1) => (.ok (.ref q), r1)
+    | (.err e, r1) => (.err e, r1)
+    | (.panic p, r1) => (.panic p, r1)
+    | (.ub, r1) => (.ub, r1)
+
+/-- `if res.is_ok() { question_read(pos) } else { done = true }` -/
+def Reader.afterQ (x : Res QOut × Reader) : Res QOut × Reader :=
+  match x with
+  | (.ok q, r1) =>
+    match r1.tr.questionRead r1.cur.pos with
+    | .ok t => (.ok q, { r1 with tr := t })
+    | .panic p => (.panic p, r1)
+    | .err e => (.err e, r1)
+    | .ub => (.ub, r1)
+  | (.err e, r1) => (.err e, { r1 with done := true })
+  | other => other
+
 /-- the `question!` macro -/
 def Reader.question (msg : Bytes) (k : QKind) (r : Reader) : Res QOut × Reader :=
   if r.done then (.err .readerDone, r)
@@ -271,30 +298,7 @@ def Reader.question (msg : Bytes) (k : QKind) (r : Reader) : Res QOut × Reader 
       let single := k == .theQuestion || k == .theQuestionRef
       if !single && left == 0 then (.err .readerDone, { r with done := true })
       else if single && left != 1 then (.err (.badQuestionsCount left), { r with done := true })
-      else
-        let owned := k == .question || k == .theQuestion
-        let step : Res QOut × Reader :=
-          if owned then
-            match r.onCur (readQuestion msg) with
-            | (.ok q, r1) => (.ok (.owned q), r1)
-            | (.err e, r1) => (.err e, r1)
-            | (.panic p, r1) => (.panic p, r1)
-            | (.ub, r1) => (.ub, r1)
-          else
-            match r.onCur (readQuestionRef msg) with
-            | (.ok q, r1) => (.ok (.ref q), r1)
-            | (.err e, r1) => (.err e, r1)
-            | (.panic p, r1) => (.panic p, r1)
-            | (.ub, r1) => (.ub, r1)
-        match step with
-        | (.ok q, r1) =>
-          match r1.tr.questionRead r1.cur.pos with
-          | .ok t => (.ok q, { r1 with tr := t })
-          | .panic p => (.panic p, r1)
-          | .err e => (.err e, r1)
-          | .ub => (.ub, r1)
-        | (.err e, r1) => (.err e, { r1 with done := true })
-        | other => other
+      else Reader.afterQ (r.readQ msg (k == .question || k == .theQuestion))
 
 /-- `skip_questions_impl`: `while questions_left() > 0 { skip_question()?; question_read(pos) }` -/
 def Reader.skipQuestionsImpl (msg : Bytes) (r : Reader) : Nat → Res Unit × Reader
